@@ -269,7 +269,7 @@ func TestC02(t *testing.T) {
 			fmt.Println("INFRA-ERROR", err)
 			os.Exit(2)
 		}
-		rec.Rule("rapid playouts from suite/bench/synthetic/motif roots and en-passant parent constructions; at every position EVERY legal move is made, the successor compared field by field (placement, side, rights, en-passant target iff a legal en-passant capture exists, halfmove clock, fullmove number, FEN text) with the reference successor, and undone; the chosen move is kept (chains). UCI leg: `position [fen F|startpos] moves ...` + `fen`. Non-trivial = capture, castle, en passant, promotion, rights change, or double push beside an enemy pawn; distinct by (position, move)")
+		rec.Rule("rapid playouts from suite/bench/synthetic/motif roots and en-passant parent constructions; at every position EVERY legal move is made, the successor compared field by field (placement, side, rights, en-passant target iff a legal en-passant capture exists, halfmove clock, fullmove number, FEN text) with the reference successor, and undone; the chosen move is kept (chains). UCI leg: `position [fen F|startpos] moves ...` + `fen`, incl. sessions of several position commands and whole games of 850..1500 (thorough ..9000) plies in one command line (halfmove clock kept <= 100). Non-trivial = capture, castle, en passant, promotion, rights change, or double push beside an enemy pawn; distinct by (position, move)")
 		rec.Assume("reference rules implementation verif/refchess incl. its en-passant capturability test (self-tested against published perft numbers)")
 		rec.Rapid(t, "successor", evid.Pick(40000, 4000000), func(t *rapid.T) {
 			c := genCase(t, rec, 30)
@@ -311,6 +311,59 @@ func TestC02(t *testing.T) {
 			}
 			if err := checkCase(c, rec); err != nil {
 				rec.Fail("uci", err.Error(), c)
+				t.Fatalf("%v", err)
+			}
+		})
+		rec.Rapid(t, "uci_long_game", evid.Pick(3, 40), func(t *rapid.T) {
+			// "game histories of arbitrary length" through one `position startpos moves ...` line of 850..1500
+			// (thorough: ..9000) plies, i.e. 4..45 KB of text; the halfmove clock is kept at or below 100 by
+			// playing a pawn move or capture when it runs high, and the game stops when none is left
+			c := Case{FEN: gen.StartFEN, UCI: true, Start: true}
+			p := refchess.MustFEN(gen.StartFEN)
+			n := gen.Draw(t, 850, evid.Pick(1500, 9000), "plies")
+			for i := 0; i < n && p.Half < 100; i++ {
+				legal := p.Legal()
+				if len(legal) == 0 {
+					break
+				}
+				var quiet, irr []refchess.Move
+				for _, m := range legal {
+					k := p.Sq[m.From]
+					if k < 0 {
+						k = -k
+					}
+					if k == refchess.Pawn || p.IsCapture(m) {
+						irr = append(irr, m)
+					} else {
+						quiet = append(quiet, m)
+					}
+				}
+				pick := legal
+				switch {
+				case p.Half >= 60+gen.Draw(t, 0, 38, "patience") && len(irr) > 0:
+					pick = irr
+				case len(quiet) > 0 && !gen.Chance(t, 1, 40, "any"):
+					pick = quiet
+				}
+				m := pick[gen.Draw(t, 0, len(pick)-1, "m")]
+				c.Moves = append(c.Moves, m.String())
+				p = p.Make(m)
+			}
+			if len(c.Moves) > 1 && gen.Chance(t, 1, 2, "growing") {
+				c.Prefixes = []int{len(c.Moves) - 1 - gen.Draw(t, 0, min(3, len(c.Moves)-2), "back")}
+				c.NewGame = []bool{false, false}
+			}
+			bytes := 24 + 5*len(c.Moves)
+			switch {
+			case bytes > 32768:
+				rec.Class("uci_move_list>32KiB")
+			case bytes > 16384:
+				rec.Class("uci_move_list>16KiB")
+			case bytes > 4096:
+				rec.Class("uci_move_list>4KiB")
+			}
+			if err := checkCase(c, rec); err != nil {
+				rec.Fail("uci_long_game", err.Error(), c)
 				t.Fatalf("%v", err)
 			}
 		})
